@@ -118,7 +118,41 @@ def fire(cell):
     return {'v': out[:4], 'n': 2, 'nt': cell if len(rows) >= 3 else None, 'obs': [err.reason, min(len(rows), 3)]}
 
 
-PARTS = {'fire': fire}
+def align(cell):
+    """the requested range ends inside the very step that first violates a limit (alignment classes as in C03): whatever happens there, the call
+    either reaches the range or raises truthfully"""
+    import py_ballisticcalc as pb
+    from mc.world import step_trace, nextafter
+    U = pb.Unit
+    ang, mv, cfg, extra = cell
+    dm = pb.DragModel(0.223, pb.TableG7, U.Grain(168), U.Inch(0.308), U.Inch(1.282))
+    shot = pb.Shot(pb.Weapon(U.Inch(2), U.Inch(12)), pb.Ammo(dm, U.FPS(mv)), relative_angle=U.Degree(ang))
+    full = dict(DEFAULTS)
+    full.update(cfg)
+    relaxed = pb.Calculator(_config={'cMinimumVelocity': 0.0, 'cMaximumDrop': -1e9, 'cMinimumAltitude': -1e9})
+    try:
+        tr = step_trace(relaxed, shot, 4000.0)
+    except pb.RangeError as e:
+        tr = e.incomplete_trajectory
+    X = [r.distance >> U.Foot for r in tr]
+    viol = next((i for i, r in enumerate(tr[1:], 1) if (r.velocity >> U.FPS) < full['cMinimumVelocity'] or (r.height >> U.Foot) < full['cMaximumDrop']
+                 or (r.height >> U.Foot) < full['cMinimumAltitude']), None)
+    if viol is None or viol < 3 or not X[viol] > X[viol - 1] > 1.0:
+        return {'vac': True}
+    x0, x1 = X[viol - 1], X[viol]
+    out = []
+    n = 0
+    for R in (nextafter(x0, False), x0, nextafter(x0, True), (x0 + x1) / 2, nextafter(x1, False), x1, x0 - 0.2, x1 + 0.2):
+        res = fire([ang, mv, 0.0, cfg, R / 3.0, extra, 0.0])
+        n += res.get('n', 1)
+        for v in res.get('v', []):
+            if len(out) < 3:
+                v['msg'] = f'range {R!r} ft ends in the step [{x0!r}, {x1!r}] that first violates a limit: ' + v['msg']
+                out.append(v)
+    return {'v': out, 'n': n, 'nt': cell}
+
+
+PARTS = {'fire': fire, 'align': align}
 
 
 def plan(tier):
@@ -153,4 +187,7 @@ def plan(tier):
                 for cfg in ({}, {'cMaximumDrop': -10.0}, {'cMinimumAltitude': -5.0}, {'cMinimumVelocity': 500.0, 'cMaximumDrop': -10.0}):
                     for extra in (False, True):
                         cells.append([ang, mv, 0.0, cfg, 3000, extra, 0.5 if mv < 100 else 0.0, None, look])
-    return [('fire', cells)]
+    al = [[ang, mv, cfg, extra] for ang in (0.0, -1.0, 10.0, 45.0) for mv in (2750.0, 900.0)
+          for cfg in ({'cMaximumDrop': -5.0}, {'cMinimumVelocity': 0.8 * mv}, {'cMinimumAltitude': -3.0}, {'cMaximumDrop': -40.0, 'cMinimumVelocity': 0.5 * mv})
+          for extra in (False, True)]
+    return [('fire', cells), ('align', al)]
